@@ -17,7 +17,7 @@
      `if`/`else` against early `continue`, or on index loops against zip loops: such rewrites of the source
      still go through.  Reordering of effects (draws, powers, divisions), changed comparisons, constants or
      formulas do not. *)
-From Coq Require Import List Bool Arith Lia.
+From Coq Require Import List Bool Arith Lia PrimFloat.
 From DV Require Import Model.C10_RealOps Model.C10_PyRt Gen.C10_gen.
 Import ListNotations.
 Local Open Scope m_scope.
@@ -55,6 +55,33 @@ Lemma length_snoc {A} (p : list A) x : length (p ++ [x]) = S (length p).
 Proof. rewrite app_length; cbn; lia. Qed.
 
 (* ---------------------------------------------------------------------------------------------- *)
+(* the one law of the number record that is used (only for mutESLogNormal): a division either returns *)
+(* or raises ZeroDivisionError -- so two adjacent divisions may be written in either order.  It holds *)
+(* for the float and the real instance ([div_lawful_FOps] below, [div_lawful_ROps] in C10_gen_props).  *)
+(* ---------------------------------------------------------------------------------------------- *)
+Definition div_lawful {T} (O : ops T) : Prop :=
+  forall a b, match o_div T O a b with Ok _ => True | Raise e => e = ZeroDiv | Stuck => False end.
+
+Lemma div_lawful_FOps : div_lawful FOps.
+Proof. intros a b. cbn. unfold fdiv. destruct (PrimFloat.eqb b 0); exact I || reflexivity. Qed.
+
+(* after a case analysis with equation E: if E is about a division and the law is among the hypotheses, use it *)
+Ltac div_law_on E :=
+  lazymatch type of E with
+  | o_div _ ?O ?a ?b = Raise ?e =>
+      match goal with
+      | DL : div_lawful O |- _ =>
+          let L := fresh "L" in pose proof (DL a b) as L; rewrite E in L; cbv beta iota in L; subst e
+      end
+  | o_div _ ?O ?a ?b = Stuck =>
+      match goal with
+      | DL : div_lawful O |- _ =>
+          let L := fresh "L" in pose proof (DL a b) as L; rewrite E in L; cbv beta iota in L; destruct L
+      end
+  | _ => idtac
+  end.
+
+(* ---------------------------------------------------------------------------------------------- *)
 (* mcrush                                                                                           *)
 (* ---------------------------------------------------------------------------------------------- *)
 (* the scrutinee the term inspects first: [t] is a match (possibly applied to arguments, as monadic actions
@@ -70,7 +97,8 @@ Ltac head_scrut t k := match_head t ltac:(fun x => head_scrut x k) ltac:(fun _ =
 
 Ltac destruct_head t :=
   match_head t
-    ltac:(fun x => head_scrut x ltac:(fun y => first [ is_var y; destruct y | let E := fresh "E" in destruct y eqn:E ]))
+    ltac:(fun x => head_scrut x ltac:(fun y => first [ is_var y; destruct y
+                                                      | let E := fresh "E" in destruct y eqn:E; try div_law_on E ]))
     ltac:(fun _ => fail).
 
 Ltac use_eqns :=
@@ -90,7 +118,7 @@ Ltac mfinish :=
   first [ reflexivity | congruence ].
 
 Ltac munfold :=
-  unfold getitem, setitem, draw_random, draw_gauss, expand, bind, ret, raise, lift, stuck.
+  unfold getitem, setitem, draw_random, draw_gauss, expand, clip, pymin, pymax, bind, ret, raise, lift, stuck.
 
 Ltac mcrush_with rew :=
   munfold;
@@ -391,10 +419,10 @@ Section Equiv.
   Qed.
 
   (* ---------------- mutESLogNormal ---------------- *)
-  Lemma gen_mutESLogNormal individual st c indpb s :
+  Lemma gen_mutESLogNormal individual st c indpb s : div_lawful O ->
     mutESLogNormal O individual st c indpb s = mut_es_lognormal O c indpb individual st s.
   Proof.
-    unfold mutESLogNormal, mut_es_lognormal.
+    intro DL. unfold mutESLogNormal, mut_es_lognormal.
     mcrush_with ltac:(idtac; match goal with
                       | |- context [eslog_loop O ?t ?t0n ?p _ _ _] => rewrite (for_eslog t t0n p)
                       end).
